@@ -1,4 +1,5 @@
 import WsProofs.Lemmas.PipeSpec
+import WsProofs.Lemmas.PipeWrite
 namespace WsProofs.C01
 open WsModel WsModel.Gen WsProofs.Read WsProofs.Pipe
 
@@ -158,5 +159,250 @@ theorem C01_end_to_end (writer : Role) (msgs : List Message) (ks : List Mask)
   obtain ⟨h1, h2⟩ := h5
   have h2' : (readAll (readAllFuel w) w).2 = .pending := h2
   exact Prod.ext h1 h2'
+
+/-! ## the writer -/
+
+theorem framesOf_nil (role : Role) (ks : List Mask) : framesOf role [] ks = [] := by
+  unfold framesOf; rfl
+
+theorem framesOf_cons (role : Role) (m : Message) (ms : List Message) (ks : List Mask) :
+    framesOf role (m :: ms) ks =
+      sent role (frameOf m) ks :: framesOf role ms (restKeys role ks) := by
+  cases role with
+  | server => rfl
+  | client => cases ks <;> rfl
+
+/-- one `write` of a sendable message queues exactly its frame, masked with the next key -/
+theorem write_step {role : Role} {w : World} {Q : List Frame} {ks : List Mask}
+    (h : WSt role w Q ks) (m : Message) (hs : Sendable m)
+    (hfit : (encodeAll (Q ++ [sent role (frameOf m) ks])).length ≤ usizeMax) :
+    WSt role (w.write m).1 (Q ++ [sent role (frameOf m) ks]) (restKeys role ks) := by
+  cases m with
+  | text d =>
+    refine ⟨write_inv h.inv _ trivial, ?_⟩
+    rw [(write_data_eq w h.wf.state).1 d]
+    exact writeData_WF h _ hfit
+  | binary d =>
+    refine ⟨write_inv h.inv _ trivial, ?_⟩
+    rw [(write_data_eq w h.wf.state).2.1 d]
+    exact writeData_WF h _ hfit
+  | ping d =>
+    refine ⟨write_inv h.inv _ trivial, ?_⟩
+    rw [(write_data_eq w h.wf.state).2.2 d]
+    exact writeData_WF h _ hfit
+  | pong d => exact ⟨write_inv h.inv _ trivial, write_pong_WF h d hfit⟩
+  | close c => cases hs
+  | frame f => cases hs
+
+theorem run_writes (role : Role) : ∀ (msgs : List Message) (ks : List Mask) (w : World)
+    (Q : List Frame), WSt role w Q ks → (∀ m ∈ msgs, Sendable m) →
+    (encodeAll (Q ++ framesOf role msgs ks)).length < 2 ^ 64 →
+    ∃ ks', WSt role (w.run (msgs.map Op.write)).1 (Q ++ framesOf role msgs ks) ks' := by
+  intro msgs
+  induction msgs with
+  | nil =>
+    intro ks w Q h _ _
+    rw [framesOf_nil, List.append_nil]
+    exact ⟨ks, h⟩
+  | cons m ms ih =>
+    intro ks w Q h hs htot
+    rw [framesOf_cons] at htot ⊢
+    have hfit : (encodeAll (Q ++ [sent role (frameOf m) ks])).length ≤ usizeMax := by
+      have e : Q ++ sent role (frameOf m) ks :: framesOf role ms (restKeys role ks) =
+          (Q ++ [sent role (frameOf m) ks]) ++ framesOf role ms (restKeys role ks) := by
+        rw [List.append_assoc]; rfl
+      rw [e, encodeAll_append (Q ++ [sent role (frameOf m) ks]), List.length_append] at htot
+      unfold usizeMax
+      omega
+    have h1 := write_step h m (hs m (List.mem_cons_self ..)) hfit
+    have e : Q ++ sent role (frameOf m) ks :: framesOf role ms (restKeys role ks) =
+        (Q ++ [sent role (frameOf m) ks]) ++ framesOf role ms (restKeys role ks) := by
+      rw [List.append_assoc]; rfl
+    rw [e] at htot ⊢
+    have hrun : (w.run ((m :: ms).map Op.write)).1 = ((w.write m).1.run (ms.map Op.write)).1 := rfl
+    rw [hrun]
+    exact ih _ _ _ h1 (fun x hx => hs x (List.mem_cons_of_mem _ hx)) htot
+
+/-- what the writer puts on the wire: after writing `msgs` (each write returning Ok or WouldBlock —
+the frame is queued either way) and a flush that succeeds, the transport has accepted exactly the
+concatenated encodings of their frames, for every write-buffer size and every partial-write /
+WouldBlock behaviour of the transport.
+
+`htot` was added to the statement as first given: without a bound on the size of the whole image
+the claim fails (only) for write buffers holding 2^64 bytes — see the comment below. -/
+theorem C01_writer_wire (role : Role) (cfg : Config) (c : Ctx) (hc : Ctx.new role cfg [] = some c)
+    (hmaxw : cfg.maxw = usizeMax) (t : Transport) (ht : t.accepted = [] ∧ t.log = [] ∧ t.flushedUpTo = 0 ∧ t.rd = [])
+    (msgs : List Message) (ks : List Mask) (hs : ∀ m ∈ msgs, Sendable m) (hk : msgs.length ≤ ks.length)
+    (hsize : ∀ m ∈ msgs, ∀ b, (m = .text b ∨ m = .binary b) → b.length + 14 < usizeMax)
+    (htot : (encodeAll (framesOf role msgs ks)).length < 2 ^ 64) :
+    let w0 : World := { c := c, t := t, mu := ks }
+    let r := w0.run (msgs.map Op.write ++ [.flush])
+    (∀ o ∈ r.2, o = .unit (.ok ()) ∨ o = .unit (.err (.io .wouldBlock))) →
+    r.2.getLast? = some (.unit (.ok ())) →
+    r.1.t.accepted = encodeAll (framesOf role msgs ks) := by
+  have _ := hk
+  have _ := hsize
+  intro w0 r _ hlast
+  have h0 := init_WSt role cfg c hc hmaxw t ht ks
+  obtain ⟨ks', h1⟩ := run_writes role msgs ks w0 [] h0 hs (by rw [List.nil_append]; exact htot)
+  rw [List.nil_append] at h1
+  obtain ⟨e1, e2⟩ := run_append w0 (msgs.map Op.write) [.flush]
+  obtain ⟨f1, f2⟩ := run_flush (w0.run (msgs.map Op.write)).1
+  have hr1 : r.1 = (w0.run (msgs.map Op.write)).1.flush.1 := e1.trans f1
+  have hr2 : r.2 = (w0.run (msgs.map Op.write)).2 ++ [.unit (w0.run (msgs.map Op.write)).1.flush.2] := by
+    rw [← f2]; exact e2
+  rw [hr2, List.getLast?_append, List.getLast?_singleton] at hlast
+  have hok : (w0.run (msgs.map Op.write)).1.flush.2 = .ok () := by
+    simp only [Option.some_or, Option.some.injEq, Out.unit.injEq] at hlast
+    exact hlast
+  rw [hr1]
+  exact flush_ok_accepted h1 hok
+
+/-! ## concrete instances (the hypotheses are satisfiable) -/
+
+/-- "hi", an empty ping, 126 bytes of binary (the first 16-bit length), a pong -/
+def exMsgs : List Message :=
+  [.text [0x68, 0x69], .ping [], .binary (List.replicate 126 7), .pong [1, 2, 3]]
+
+def exKeys : List Mask := [⟨1, 2, 3, 4⟩, ⟨9, 9, 9, 9⟩, ⟨0, 0, 0, 0⟩, ⟨0xff, 0, 0xff, 0⟩]
+
+theorem exMsgs_sendable : ∀ m ∈ exMsgs, Sendable m := by
+  intro m hm
+  simp only [exMsgs, List.mem_cons, List.not_mem_nil, or_false] at hm
+  rcases hm with rfl | rfl | rfl | rfl
+  · exact (C08.C08_wellFormedB_iff _).mp (by decide)
+  · exact (by decide : ([] : Bytes).length ≤ 125)
+  · trivial
+  · exact (by decide : ([1, 2, 3] : Bytes).length ≤ 125)
+
+theorem exMsgs_len (bound : Nat) (hb : 200 ≤ bound) :
+    ∀ m ∈ exMsgs, ∀ b, (m = .text b ∨ m = .binary b) → b.length + 14 < bound := by
+  intro m hm b hb
+  simp only [exMsgs, List.mem_cons, List.not_mem_nil, or_false] at hm
+  rcases hm with rfl | rfl | rfl | rfl <;> rcases hb with hb | hb <;> cases hb
+  · show 2 + 14 < bound; omega
+  · show (List.replicate 126 (7 : UInt8)).length + 14 < bound
+    rw [List.length_replicate]; omega
+
+theorem exMsgs_len63 : ∀ m ∈ exMsgs, ∀ b, (m = .text b ∨ m = .binary b) → b.length < 2 ^ 63 := by
+  intro m hm b hb
+  have := exMsgs_len (2 ^ 63) (by decide) m hm b hb
+  omega
+
+example : Spec.decode .server false ⟨none, none⟩ (encodeAll (framesOf .client exMsgs exKeys)) =
+    (exMsgs, .needMore) :=
+  C01_spec_roundtrip .client exMsgs exKeys exMsgs_sendable exMsgs_len63 ⟨none, none⟩ ⟨rfl, rfl⟩
+
+example : Spec.decode .client false ⟨none, none⟩ (encodeAll (framesOf .server exMsgs [])) =
+    (exMsgs, .needMore) :=
+  C01_spec_roundtrip .server exMsgs [] exMsgs_sendable exMsgs_len63 ⟨none, none⟩ ⟨rfl, rfl⟩
+
+/-- the wire image of the example, 157 bytes -/
+def exWire : Bytes := encodeAll (framesOf .client exMsgs exKeys)
+
+set_option maxRecDepth 20000 in
+theorem exWire_length : exWire.length = 157 := by decide
+
+/-- a client writer that writes through at once (`write_buffer_size = 0`) over a transport that
+takes one byte, blocks, takes three, blocks, then takes everything -/
+def exWCfg : Config := { wbuf := 0 }
+
+def exWriter : World :=
+  { c := { role := .client, cfg := exWCfg, codec := { maxOut := usizeMax, writeLen := 0 } },
+    t := { rd := [], wr := [.accept 1, .err .wouldBlock, .accept 3, .err .wouldBlock], fl := [] },
+    mu := exKeys }
+
+set_option maxRecDepth 20000 in
+theorem exWriter_outs : (exWriter.run (exMsgs.map Op.write ++ [.flush])).2 =
+    [.unit (.err (.io .wouldBlock)), .unit (.err (.io .wouldBlock)), .unit (.ok ()), .unit (.ok ()),
+     .unit (.ok ())] := rfl
+
+example : (exWriter.run (exMsgs.map Op.write ++ [.flush])).1.t.accepted = exWire := by
+  have h := C01_writer_wire .client exWCfg exWriter.c rfl rfl exWriter.t ⟨rfl, rfl, rfl, rfl⟩
+    exMsgs exKeys exMsgs_sendable (by decide) (exMsgs_len usizeMax (by decide))
+    (by show exWire.length < 2 ^ 64; rw [exWire_length]; decide)
+  have hw : ({ c := exWriter.c, t := exWriter.t, mu := exKeys } : World) = exWriter := rfl
+  dsimp only at h
+  rw [hw, exWriter_outs] at h
+  refine h ?_ rfl
+  intro o ho
+  simp only [List.mem_cons, List.not_mem_nil, or_false] at ho
+  rcases ho with rfl | rfl | rfl | rfl | rfl
+  · exact Or.inr rfl
+  · exact Or.inr rfl
+  · exact Or.inl rfl
+  · exact Or.inl rfl
+  · exact Or.inl rfl
+
+/-- the server reader: five bytes pre-read, the rest cut into pieces with WouldBlock in between -/
+def exCfg : Config := { maxFrame := none, maxMsg := none }
+
+def exReaderCtx : Ctx :=
+  { role := .server, cfg := exCfg,
+    codec := { inBuf := exWire.take 5, maxOut := usizeMax, writeLen := 131072 } }
+
+def exReaderT : Transport :=
+  { rd := [.data ((exWire.drop 5).take 1), .err .wouldBlock, .data ((exWire.drop 6).take 10),
+           .err .wouldBlock, .err .wouldBlock, .data (exWire.drop 16)],
+    wr := [], fl := [] }
+
+set_option maxRecDepth 20000 in
+theorem exReader_stream : exWire.take 5 ++ dataOf exReaderT.rd = exWire := by decide
+
+set_option maxRecDepth 20000 in
+theorem exReader_benign : ∀ e ∈ exReaderT.rd, e.benign = true := by decide
+
+example : readAll (readAllFuel { c := exReaderCtx, t := exReaderT })
+    { c := exReaderCtx, t := exReaderT } = (exMsgs, .pending) :=
+  C01_end_to_end .client exMsgs exKeys exMsgs_sendable exMsgs_len63 exCfg ⟨rfl, rfl, by decide⟩
+    (exWire.take 5) exReaderCtx rfl exReaderT exReader_benign rfl ⟨rfl, rfl, rfl, rfl⟩ []
+    exReader_stream (by show exWire.length < 2 ^ 64; rw [exWire_length]; decide)
+
+/-! ## why `C01_writer_wire` needs the bound `htot` on the whole image
+
+`FrameCodec::buffer_frame` refuses a frame when `frame.len() + out_buffer.len() >
+max_write_buffer_size`. A data write then fails with `WriteBufferFull`, but a user pong goes
+through the pending-frame slot, and `_write` turns the refusal into "put the pong back, return
+Ok". The pong is buffered by a later call — after frames written in between (and, for a client,
+under a later mask key). With `max_write_buffer_size = usize::MAX` this needs 2^64 − 127 buffered
+bytes, which the per-message bound `hsize` of the statement as first given does not exclude:
+
+* server, `msgs = [binary (2^64 − 16 bytes), pong (125 bytes), binary []]`, the transport blocks
+  the first write and accepts everything afterwards: the outputs are WouldBlock, Ok, Ok and the
+  final flush returns Ok, but the wire carries binary, binary, pong.
+* client, `msgs = [binary (2^64 − 20 bytes), pong []]`: the pong is masked with the fourth key
+  drawn, not the second.
+
+Such buffers cannot exist on a 64-bit machine; the finding is about the statement. The same runs
+with `max_write_buffer_size = 300` (so that 280 bytes play the role of 2^64 − 16), checked: -/
+
+def cexCfg : Config := { maxw := 300, wbuf := 100 }
+
+def cexMsgs : List Message :=
+  [.binary (List.replicate 280 0), .pong (List.replicate 125 0), .binary []]
+
+def cexWorld (role : Role) (ks : List Mask) : World :=
+  { c := { role := role, cfg := cexCfg, codec := { maxOut := 300, writeLen := 100 } },
+    t := { rd := [], wr := [.err .wouldBlock], fl := [] }, mu := ks }
+
+example : Ctx.new .server cexCfg [] = some (cexWorld .server []).c := rfl
+
+set_option maxRecDepth 100000 in
+/-- the outputs are WouldBlock, Ok, Ok and the final flush returns Ok … -/
+example : ((cexWorld .server []).run (cexMsgs.map Op.write ++ [.flush])).2 =
+    [.unit (.err (.io .wouldBlock)), .unit (.ok ()), .unit (.ok ()), .unit (.ok ())] := rfl
+
+set_option maxRecDepth 100000 in
+/-- … but the pong left after the second binary frame -/
+example : ((cexWorld .server []).run (cexMsgs.map Op.write ++ [.flush])).1.queued.map
+      (fun f => f.header.opcode) = [.data .binary, .data .binary, .control .pong] ∧
+    ((cexWorld .server []).run (cexMsgs.map Op.write ++ [.flush])).1.t.accepted ≠
+      encodeAll (framesOf .server cexMsgs []) := by decide
+
+set_option maxRecDepth 100000 in
+/-- client: the pong is sent under a later key than the one `framesOf` assigns to it -/
+example : ((cexWorld .client [⟨1, 1, 1, 1⟩, ⟨2, 2, 2, 2⟩, ⟨3, 3, 3, 3⟩, ⟨4, 4, 4, 4⟩]).run
+      ((cexMsgs.take 2).map Op.write ++ [.flush])).1.queued.map (fun f => f.header.mask) =
+    [some ⟨1, 1, 1, 1⟩, some ⟨4, 4, 4, 4⟩] := by decide
 
 end WsProofs.C01
